@@ -111,7 +111,7 @@ def run_job1(job, work, tier, cache_dir, versions):
     if job.get('c_source'):
         # a C translation unit of the repository (here: the flex output with the scanner glue) is verified AS IT IS: the
         # contract file #includes it (C_SOURCE); nothing is rendered, nothing is dropped
-        srcp = os.path.join('/repo', job['src'])
+        srcp = os.path.join(os.environ.get('VERIF_REPO', '/repo'), job['src'])
         nlines = sum(1 for _ in open(srcp, errors='replace'))
         json.dump(dict(rendered={job['enforce']: dict(lines=nlines, has_loops=True)}, compile_cmd='none: %s is C and is included unchanged by contracts/%s' % (job['src'], job['contract'])),
                   open(os.path.join(d, tag + '.meta.json'), 'w'))
@@ -206,7 +206,11 @@ def run_variant(job, d, tag, tier, cache_dir, versions, vname, ufmode, vdefs, re
         flags += ['--unwind', str(job['unwind']), '--unwinding-assertions']
     src_i = os.path.join(mb, os.path.basename(pre))
     h = hashlib.sha256()
-    h.update(open(src_i, 'rb').read().replace(os.path.dirname(d).encode(), b'@WORK@'))
+    txt_i = open(src_i, 'rb').read().replace(os.path.dirname(d).encode(), b'@WORK@')
+    if os.environ.get('VERIF_REPO', '/repo') != '/repo':
+        # experiments on a scratch checkout (tools/try_benign.sh): same text, same verdict -- the checkout's path is not part of the key
+        txt_i = txt_i.replace(os.environ['VERIF_REPO'].rstrip('/').encode() + b'/', b'/repo/')
+    h.update(txt_i)
     h.update(json.dumps([flags, versions]).encode())
     key = h.hexdigest()
     cf = os.path.join(cache_dir, key + '.json') if cache_dir else None
@@ -297,7 +301,7 @@ def make_replay(prop, job, jr, ob, work, replay_dir):
         flags = [x for x in CBMC_FLAGS]
         if job.get('unwind'):
             flags += ['--unwind', str(job['unwind'])]
-        rc, out, err, secs = sh(['cbmc', gb] + flags + ['--property', pname, '--trace'], timeout=600)
+        rc, out, err, secs = sh(['cbmc', gb] + flags + ['--property', pname, '--trace', '--trace-show-function-calls'], timeout=600)
         trace_txt = out
         # cbmc prints one trace per failing property (reachable no-body callees fail too): keep the one asked for
         seg = re.search(r'^Trace for %s:\n(.*?)(?=^Trace for |\Z)' % re.escape(pname), out, re.M | re.S)
@@ -311,6 +315,20 @@ def make_replay(prop, job, jr, ob, work, replay_dir):
     for m in re.finditer(r'^\s+(__exc|__ret)=(.*?) \(', trace_txt, re.M):
         wit[m.group(1)] = m.group(2)
     rep['witness'] = wit
+    # a counterexample that runs through a callee WITHOUT body or contract is not a counterexample of the code: CBMC lets such a
+    # call return anything.  Such a failure is undecided (model gap), never a violation.
+    gaps = []
+    for o2 in jr.get('obligations', []):
+        if o2.get('kind') == 'no-body' and o2.get('status') != 'SUCCESS':
+            mg_ = re.search(r'no body for callee (\S+)', o2.get('desc', ''))
+            if mg_ and not re.match(r'__g2c_nondet_\w+$', mg_.group(1)):
+                gaps.append(mg_.group(1))
+    gaps = sorted(set(gaps))
+    if gaps:
+        if 'Function call:' in trace_txt or 'Violated property' in trace_txt:
+            rep['through_unmodelled'] = [g_ for g_ in gaps if re.search(r'Function call: %s\(' % re.escape(g_), trace_txt)]
+        else:
+            rep['through_unmodelled'] = gaps   # no trace at hand: cannot tell, so do not claim
     tl = trace_txt.split('\n')
     vi = [i for i, l in enumerate(tl) if l.startswith('Violated property')]
     rep['verifier_output'] = '\n'.join(tl[vi[-1]:vi[-1] + 8]) if vi else '\n'.join(tl[-40:])
@@ -324,8 +342,9 @@ def make_replay(prop, job, jr, ob, work, replay_dir):
     rep['native'] = native
     if native and native.get('reproduced'):
         rep['reproduced'] = True
+    os.makedirs(replay_dir, exist_ok=True)
     json.dump(rep, open(path, 'w'), indent=1)
-    return path, rep['reproduced']
+    return path, rep['reproduced'], rep.get('through_unmodelled', [])
 
 def main():
     ap = argparse.ArgumentParser()
@@ -450,9 +469,16 @@ def main():
         replay_dir = os.path.join(VERIF, 'replay', prop)
         shutil.rmtree(replay_dir, ignore_errors=True)
         vlines = []
+        real = []
         for j, r, o in violations:
-            path, reproduced = make_replay(prop, j, r, o, work, replay_dir)
+            path, reproduced, through = make_replay(prop, j, r, o, work, replay_dir)
+            if through and not reproduced:
+                inconcl.append('%s: %s fails only on an execution through %s, which has neither body nor contract here (model gap): undecided, see %s'
+                               % (j['id'], o['name'], ', '.join(through[:2]), path))
+                continue
+            real.append((j, r, o))
             vlines.append('VIOLATION property=%s replay=%s%s' % (prop, path, '' if reproduced else ' no-failing-input-found'))
+        violations = real
         seen = set()
         for kid, what in known_hits:
             if kid not in seen:
